@@ -689,7 +689,11 @@ class Merge(MultiCrossBlock):
             alignment = normalize_alignment(who, alignment)
         for b in blocks:
             if b.alignment != alignment:
-                raise ValueError(who, "Blocks have different alignments.")
+                if b.alignment == AlignmentMode.EQUAL_PREAMBLE and len(b.crossings) <= 1:
+                    # no alignment choice was made within a single-crossing block
+                    pass
+                else:
+                    raise ValueError(who, "Blocks have different alignments.")
         mode = normalize_mode(who, mode)
 
         design = []
